@@ -41,6 +41,28 @@ def unit(prop, target=None, name=None, tier="quick", timeout_s=300, samples=40):
   return deco
 
 
+STANDINS = {}  # property id -> list of StandIn
+
+
+class StandIn(object):
+  """bounded stand-in: the real code is executed natively over an enumerated input space with the
+  contract as oracle.  Reported as *bounded*, never counted as proved."""
+  def __init__(self, prop, name, fn, bound, target=None, timeout_s=240):
+    self.prop = prop
+    self.name = name
+    self.fn = fn
+    self.bound = bound
+    self.target = target
+    self.timeout_s = timeout_s
+
+
+def standin(prop, bound, target=None, name=None, timeout_s=240):
+  def deco(fn):
+    STANDINS.setdefault(prop, []).append(StandIn(prop, name or fn.__name__, fn, bound, target, timeout_s))
+    return fn
+  return deco
+
+
 class Case(object):
   def __init__(self, fn, args=(), kwargs=None, ensures=None, raises=None, loops=None, calls=None,
                must_return=True, note=None, exc_ensures=None):
